@@ -20,7 +20,7 @@ def project_fork(raw):
     FL = '+' + m.group(1); PAUSE, PAUSED = 16, 32
     ncrd = len(set(re.findall(r'\bcrd(\d+)\+', raw)))
     out = ['T %d' % ncrd]
-    libthreads = set(p[0] for p in ev if p[1] == 'start'); helper_of = {}; phase = {}; began = ended = False
+    libthreads = set(p[0] for p in ev if p[1] == 'start'); helper_of = {}; phase = {}; began = ended = False; nreg = {}
     for p in ev:
         t, k = p[0], p[1]; loc = p[2] if len(p) > 2 else ''
         mm = re.match(r'crd(\d+)\+(\d+)$', loc)
@@ -35,6 +35,11 @@ def project_fork(raw):
             else:
                 i = CR.oid(v)
                 if i is not None: out.append('C %d %d' % (K, i))
+        elif k == 'unlock' and loc.startswith('reg_lock') and t in helper_of and phase.get(helper_of[t]) not in ('spliced', 'syncing'):
+            # a helper releases the registry lock outside synchronize_rcu(): rcu_register_thread() / rcu_unregister_thread() has completed
+            # (1st = the registration at thread start, then alternately unregister for a pause and register after it)
+            K = helper_of[t]; nreg[K] = nreg.get(K, 0) + 1
+            if nreg[K] > 1: out.append(('U %d' if nreg[K] % 2 == 0 else 'G %d') % K)
         elif k == 'xchg' and loc == 'waiters+0' and t in helper_of and phase.get(helper_of[t]) == 'spliced': phase[helper_of[t]] = 'syncing'
         elif k == 'call' and p[2] == 'cb' and t in helper_of:
             K = helper_of[t]
@@ -50,6 +55,8 @@ def project_fork(raw):
             elif v == (~PAUSE) & 0xffffffff and not ended: out.append('N'); ended = True; began = False
         elif k == 'note' and len(p) > 2 and p[2] == 'forkq':
             out.append(('KQ', int(p[3]), p[7] if len(p) > 7 else ''))
+        elif k == 'note' and len(p) > 2 and p[2] == 'forkreg':
+            pass
         elif k == 'note' and len(p) > 2 and p[2] == 'forkpoint':
             qs = {}
             while out and isinstance(out[-1], tuple): _, kk, ids = out.pop(); qs[kk] = ids.rstrip(',')
@@ -67,6 +74,12 @@ def fork_refinement(ctx):
         th = [str(i) for i in range(prog.count('/') + 1)]; allt = th + [str(len(th) + i) for i in range(2)]      # helper threads get the next ids
         for k in range(0, 60 if ctx.quick() else 160, 3 if ctx.quick() else 1):
             cases.append((prog, '0a' * k + ''.join(x + chr(ord('a') + int(x)) for x in allt[1:]) * 25 + '0a' * 40))
+    # targeted family: the forking thread has raised PAUSE; the helper is advanced j steps into its pause path and frozen there while the forking thread
+    # runs on to the fork point (if it can): the registry must be quiescent at whatever point the helper stands when PAUSED is visible
+    for prog in FPROGS[:2]:
+        for k in (24, 36, 48):
+            for j in range(0, 36 if ctx.quick() else 80):
+                cases.append((prog, '0a' * k + '1b' * j + '>0>0>0'))
     n = len(cases) + (150 if ctx.quick() else 3000)
     while len(cases) < n:
         prog = ctx.rng.choice(FPROGS); th = [str(i) for i in range(prog.count('/') + 1 + 2)]
@@ -77,6 +90,9 @@ def fork_refinement(ctx):
     for (p, s), (rc, raw) in zip(cases, rs):
         o = CR.oracle(p, s, None, raw)
         if 'ABORT' in raw or 'BUG ' in raw or 'TIMEOUT' in raw: o = 'abnormal run: ' + raw[-300:]
+        for mreg in re.finditer(r'note forkreg owner (-?\d+) foreign (\d+)', raw):      # state of the reader registry that fork() would copy
+            if not o and (mreg.group(1) != '-1' or mreg.group(2) != '0'):
+                o = 'at the fork point the reader registry is not quiescent: rcu_registry_lock owner = thread %s (-1 = free), %s helper thread(s) still registered - the child inherits a held lock / a reader that does not exist' % (mreg.group(1), mreg.group(2))
         if o:
             nor += 1
             if nor <= 2: ctx.fail('oracle', 'call_rcu oracle on the fork-handshake scenario', o, concrete={'scenario': 'scen_callrcu', 'prog': p, 'schedule': s + tail, 'verdict': o})
